@@ -1,6 +1,6 @@
 CONSTANTS
-  Sigma = {97, 98, 42, 63, 92, 10}
-  NSigma = {97, 98, 42, 63, 92, 10}
+  Sigma = {97, 42, 63, 92, 10}
+  NSigma = {97, 42, 63, 92, 10}
   MaxParas = 1
   MaxPats = 2
   MaxPatLen = 2
